@@ -1,3 +1,38 @@
-From TM Require Import Base Frame.
-Theorem C09_placeholder : fc_value (fc_new 1) = 1.
-Proof. reflexivity. Qed.
+(* C09 -- oversized PDUs are refused before sending; PDUs up to 253 bytes go out intact. *)
+From TM Require Import Base Frame Pdu RtuCodec TcpCodec Framed Client Server Spec PduEncode ClientProofs EndToEnd.
+
+(* a request whose PDU would exceed 253 bytes: InvalidInput transport error, nothing written, nothing
+   read, the write buffer unchanged, the client still connected (usable) -- TCP and RTU *)
+Theorem C09_oversized_request_refused : forall p m st req bg,
+  framed st = true -> 253 < req_size req -> len (wbuf (wio_ st)) < BACKPRESSURE ->
+  fst (call p m st req bg) = CRTransport KInvalidInput
+  /\ wio_ (snd (call p m st req bg)) = wio_ st /\ rq (snd (call p m st req bg)) = rq st
+  /\ framed (snd (call p m st req bg)) = true.
+Proof. exact oversized_request_refused. Qed.
+
+(* a response that would exceed 253 bytes is refused by the server encoder (the connection then ends
+   with one InvalidInput report, C14) *)
+Theorem C09_oversized_response_refused : forall p m h r, 253 < rsp_size r -> server_enc p m h (RROk r) = Fail KInvalidInput.
+Proof. exact oversized_response_refused. Qed.
+
+(* up to 253 bytes: the encoder produces the spec encoding -- count and length fields are the true
+   counts (no truncation, no debug assertion) -- and its length is the computed size, in both profiles *)
+Theorem C09_request_intact : forall m r, req_ok r = true -> req_size r <= 253 ->
+  enc_req m r = Val (spec_req_pdu r) /\ len (spec_req_pdu r) = req_size r.
+Proof. exact enc_req_spec. Qed.
+Theorem C09_response_intact : forall m r, rsp_ok r = true -> rsp_size r <= 253 ->
+  enc_rsp m r = Val (spec_rsp_pdu r) /\ len (spec_rsp_pdu r) = rsp_size r.
+Proof. exact enc_rsp_spec. Qed.
+Theorem C09_mbap_length_not_truncated : forall m tid uid r, req_ok r = true -> req_size r <= 253 -> tid < 65536 ->
+  tcp_client_enc m (tid, uid) r = Val (TcpProofs.tcp_frame tid uid (spec_req_pdu r)).
+Proof. exact client_frame_tcp. Qed.
+
+(* boundary instances *)
+Example C09_boundary_coils : req_size (ReqWriteMultipleCoils 0 (repeat true 1976)) = 253 /\ req_size (ReqWriteMultipleCoils 0 (repeat true 1977)) = 254.
+Proof. split; vm_compute; reflexivity. Qed.
+Example C09_boundary_registers : req_size (ReqWriteMultipleRegisters 0 (repeat 7 123)) = 252 /\ req_size (ReqWriteMultipleRegisters 0 (repeat 7 124)) = 254.
+Proof. split; vm_compute; reflexivity. Qed.
+Example C09_boundary_rw : req_size (ReqReadWriteMultipleRegisters 0 1 0 (repeat 7 121)) = 252 /\ req_size (ReqReadWriteMultipleRegisters 0 1 0 (repeat 7 122)) = 254.
+Proof. split; vm_compute; reflexivity. Qed.
+Example C09_boundary_server_id : rsp_size (RspReportServerId 1 true (repeat 0 249)) = 253 /\ rsp_size (RspReportServerId 1 true (repeat 0 250)) = 254.
+Proof. split; vm_compute; reflexivity. Qed.
